@@ -339,7 +339,6 @@ func c07ServerIDStores(a *A, r *Roles, fieldIdx int) {
 	}
 }
 
-
 // isPositionGetter: f is a niladic method of *Streamer returning a Position all of whose returns are loads of one and the
 // same Position field of the receiver (the stored resume position).
 func isPositionGetter(w *World, f *ssa.Function) bool {
